@@ -106,3 +106,64 @@ def c11(run, a):
         run.add_violation(fd["check"], "%s (owner kind %s): %s" % (fd["check"], fd["kind"], fd["detail"][:160].replace("\n", " ")),
                           {"property": "C11", "vector": fd["vector"], "detail": fd["detail"], "how": "harness/cmd/codecdrive"}, sig)
     run.assumptions += ["names are DNS-1123 labels (no underscore); pool names likewise", "the owner of a deployment pod is a ReplicaSet named <deployment>-<hash>"]
+
+
+def _cnidrive(run, mode, vec, extra):
+    import fcntl
+    plugin = run.build("fakeplugin")
+    binp = run.build("cnidrive")
+    work = run.path("cni")
+    os.makedirs(work, exist_ok=True)
+    res = run.path("cni-%s.json" % mode)
+    # the daemon's socket and state directory are fixed paths: one driver at a time
+    with open(os.path.join(vlib.WORK, "cni.lock"), "w") as lk:
+        fcntl.flock(lk, fcntl.LOCK_EX)
+        p = subprocess.run([binp, "-mode", mode, "-vectors", vec, "-work", work, "-plugin", plugin, "-out", res] + extra,
+                           stdout=subprocess.PIPE, stderr=subprocess.STDOUT, text=True, timeout=3000)
+    if p.returncode != 0 or not os.path.exists(res):
+        raise vlib.Machinery("cnidrive failed:\n" + p.stdout[-2000:])
+    return json.load(open(res))
+
+
+def c12(run, a):
+    quick = run.tier == "quick"
+    run.level = "model_checking"
+    vec = tlc_vectors(run, "CNIMux", "cnimux_q.cfg" if quick else "cnimux_t.cfg", "cnivectors.json", timeout=3000)
+    meta = json.load(open(vec))
+    r = _cnidrive(run, "c12", vec, ["-n", "400" if quick else "6000", "-seed", str(run.seed)])
+    cov = run.coverage
+    cov["states"] = meta["n"]
+    cov["transitions"] = r["requests"]
+    cov["evaluations"] = r["requests"]
+    cov["traces_validated_against_impl"] = r["scenarios_run"]
+    cov["distinct_nontrivial"] = r["nontrivial"]
+    cov["exhaustive"] = False
+    cov["plugin_invocations_observed"] = r["invocations"]
+    cov["rule"] = ("TLC enumerates every scenario (a pod out of 6 annotation/ENI shapes for each of 2 containers, <= %d ADD/DEL requests, <= %d failing (network, command) pairs per request) and "
+                   "computes the expected invocations, response and saved list from CNIMux.tla (PairLaw, RepeatLaw, RetryLaw checked on the spec); a seeded sample of the scenarios is run against the real "
+                   "daemon over its unix socket with recording plugins; non-trivial = some request invokes >= 2 plugins or has an injected failure" % ((2, 1) if quick else (3, 2)))
+    s0 = meta["scenarios"][len(meta["scenarios"]) // 3]
+    cov["samples"] = [s0]
+    for fd in r["findings"] or []:
+        run.add_violation(fd["check"], fd["detail"][:200], {"property": "C12", "scenario": fd["scenario"], "request_index": fd["req"], "detail": fd["detail"], "how": "harness/cmd/cnidrive -mode c12"},
+                          {"check": fd["check"]})
+    run.assumptions += ["requests are issued sequentially (concurrent requests only in the thorough tier)", "plugins are replaced by a recording binary; the daemon, its socket protocol, pod lookup and state files are real"]
+
+
+def c13(run, a):
+    quick = run.tier == "quick"
+    run.level = "translation_validation"
+    vec = tlc_vectors(run, "Deliver", "deliver_q.cfg" if quick else "deliver_t.cfg", "delivervectors.json")
+    meta = json.load(open(vec))
+    r = _cnidrive(run, "c13", vec, ["-every", "3" if quick else "7"])
+    cov = run.coverage
+    cov["programs"] = r["vectors_run"]
+    cov["disagreements_checked"] = r["vectors_run"]
+    cov["evaluations"] = r["vectors_run"]
+    cov["distinct_nontrivial"] = r["vectors_run"]
+    cov["states"] = meta["n"]
+    cov["samples"] = [r.get("sample")]
+    cov["rule"] = "TLC enumerates pool attribute tuples (prefix 8/24/30/32, gateway first/last host, vlan 0/2/4094) for 1..%d IPs per pod; each vector runs the real Bind, daemon and plugins' decoder end to end" % (2 if quick else 3)
+    for fd in r["findings"] or []:
+        run.add_violation(fd["check"], fd["detail"][:200], {"property": "C13", "vector": fd["scenario"], "detail": fd["detail"], "how": "harness/cmd/cnidrive -mode c13"}, {"check": fd["check"]})
+    run.assumptions += ["the composition is checked end to end; the kernel-side configuration done by the vendored plugins is not"]
